@@ -103,7 +103,30 @@ fn conj(mut xs: Vec<F>) -> F {
 pub fn gen_family(r: &mut Rng, n: usize) -> Vec<F> {
     let at = |i: usize| F::Atom(i % n);
     let not = |f: F| F::Not(Box::new(f));
-    match r.below(12) {
+    match r.below(13) {
+        // long chains: one connective over 8-12 operands, right- or left-nested, operands repeated
+        // (anything that flattens, sorts or de-duplicates the operands of an associative connective
+        // is right for and/or and wrong for xor/iff)
+        12 => (0..n)
+            .map(|_| {
+                let k = r.below(4);
+                let len = r.range(8, 12);
+                let left = r.bool();
+                let lit = |r: &mut Rng| if r.chance(1, 5) { F::Not(Box::new(F::Atom(r.usize(n)))) } else { F::Atom(r.usize(n)) };
+                let mut acc = lit(r);
+                for _ in 1..len {
+                    let x = lit(r);
+                    let (a, b) = if left { (Box::new(acc), Box::new(x)) } else { (Box::new(x), Box::new(acc)) };
+                    acc = match k {
+                        0 => F::Xor(a, b),
+                        1 => F::Iff(a, b),
+                        2 => F::And(a, b),
+                        _ => F::Or(a, b),
+                    };
+                }
+                acc
+            })
+            .collect(),
         // hub: ONE statement occurs in its own condition below another connective (guarded self
         // reference: not s1 and (s2 -> not s0)), every other statement attacks, follows or ignores the
         // hub: several stable models, some of them inside path cubes that carry the hub's own literal
@@ -926,7 +949,7 @@ impl Exec {
                 }
                 true
             }
-            "adopt" | "presented" | "ordercheck" | "clirun" | "clicheck" => true,
+            "adopt" | "presented" | "ordercheck" | "clirun" | "clicheck" | "clibadrun" => true,
             "ngbig" if ws.len() == 2 => {
                 out.line(l);
                 out.flush();
@@ -954,7 +977,20 @@ impl Exec {
                     adf.two_val_nogood_channel(Heuristic::MinModMaxVarImpMinPaths, s2);
                     let tv = r2.iter().count();
                     // the same through a bounded channel whose consumer is slower than the search
-                    let bd = slow_consumer(2, |s| adf.stable_nogood_channel(Heuristic::Simple, s));
+                    // (on a smaller object of the same shape: 2^(k-3) models are enough to meet a full channel)
+                    let kb = k.saturating_sub(3).max(1);
+                    let mut txtb = String::new();
+                    for i in 0..kb {
+                        txtb += &format!("s(a{i}).s(b{i}).");
+                    }
+                    for i in 0..kb {
+                        txtb += &format!("ac(a{i},neg(b{i})).ac(b{i},neg(a{i})).");
+                    }
+                    let srcb: &'static str = Box::leak(txtb.into_boxed_str());
+                    let parserb: &'static AdfParser<'static> = Box::leak(Box::new(AdfParser::default()));
+                    parserb.parse()(srcb).ok()?;
+                    let mut adfb = Adf::from_parser(parserb);
+                    let bd = slow_consumer(2, |s| adfb.stable_nogood_channel(Heuristic::Simple, s));
                     let mut bdd = bd.clone();
                     bdd.sort();
                     bdd.dedup();
@@ -1041,7 +1077,11 @@ impl Exec {
                 out.line(l);
                 out.flush();
                 match catch_unwind(AssertUnwindSafe(|| self.clibad(ws[1], ws[2], ws[3]))) {
-                    Ok(Some(x)) => out.line(&x),
+                    Ok(Some(lines)) => {
+                        for x in lines {
+                            out.line(&x);
+                        }
+                    }
                     Ok(None) => out.line("~ bad-request"),
                     Err(_) => out.line("~ panic"),
                 }
@@ -1547,7 +1587,7 @@ impl Exec {
     }
 
     /// a definitely malformed file must be rejected: non-zero exit, nothing printed
-    fn clibad(&mut self, mode: &str, kind: &str, seed: &str) -> Option<String> {
+    fn clibad(&mut self, mode: &str, kind: &str, seed: &str) -> Option<Vec<String>> {
         let n = self.n;
         if n == 0 {
             return None;
@@ -1565,11 +1605,20 @@ impl Exec {
         let file = tmp_file("bad.adf");
         std::fs::write(&file, &bad).ok()?;
         let (code, stdout) = run_cli(&["--lib", mode, "--grd", "--com", "--stm", file.to_str()?]);
-        Some(if code != 0 && stdout.is_empty() {
-            "~ rejected".to_string()
-        } else {
-            format!("~ accepted exit={code} stdout={}", stdout.replace([' ', '\n'], "_"))
-        })
+        let hex = |s: &str| s.bytes().map(|b| format!("{b:02x}")).collect::<String>();
+        let printed: Vec<String> = stdout.split_terminator('\n').map(|l| if l.is_empty() { "e".to_string() } else { hex(l) }).collect();
+        Some(vec![
+            if code != 0 && stdout.is_empty() {
+                "~ rejected".to_string()
+            } else {
+                format!("~ accepted exit={code} stdout={}", stdout.replace([' ', '\n'], "_"))
+            },
+            // the exact malformed TEXT handed to the binary (hex of its UTF-8 bytes) with what the binary did:
+            // the text-level model (`CliM.runText`) is run on it, so that its rejection branches are executed
+            // against the binary (flags are the fixed `--grd --com --stm` of this request)
+            format!("clibadrun {mode} {}", hex(&bad)),
+            format!("= exit={code} printed={}", if printed.is_empty() { "-".to_string() } else { printed.join(",") }),
+        ])
     }
 
     /// `--export` never overwrites; `--import` of the exported state gives the same answers
@@ -1584,6 +1633,14 @@ impl Exec {
         std::fs::write(&file, &txt).ok()?;
         let json = tmp_file("exp.json");
         let _ = std::fs::remove_file(&json);
+        // bystanders: existing files next to the export path whose names a writer might use for a
+        // temporary or backup copy (exp.tmp, exp.json.tmp, exp.bak, exp.json~ ...): none may be touched
+        let jstr = json.to_str()?.to_string();
+        let stem = jstr.strip_suffix(".json")?.to_string();
+        let bystanders: Vec<String> = vec![format!("{stem}.tmp"), format!("{jstr}.tmp"), format!("{stem}.bak"), format!("{jstr}~"), format!("{jstr}.new"), format!("{stem}.part")];
+        for b in &bystanders {
+            std::fs::write(b, format!("bystander {b}\n")).ok()?;
+        }
         let (c1, direct) = run_cli(&["--lib", "naive", "--grd", "--com", "--stm", "--export", json.to_str()?, file.to_str()?]);
         let first = std::fs::read(&json).ok()?;
         // second export onto the existing file of a DIFFERENT framework must leave it untouched
@@ -1601,7 +1658,11 @@ impl Exec {
         std::fs::write(&notes, "precious notes\n").ok()?;
         let (c5, _) = run_cli(&["--lib", "naive", "--grd", "--export", notes.to_str()?, file.to_str()?]);
         let notes_after = std::fs::read(&notes).ok()?;
-        let kept = empty_after.is_empty() && notes_after == b"precious notes\n";
+        let mut kept = empty_after.is_empty() && notes_after == b"precious notes\n";
+        for b in &bystanders {
+            kept = kept && std::fs::read(b).ok() == Some(format!("bystander {b}\n").into_bytes());
+            let _ = std::fs::remove_file(b);
+        }
         let _ = std::fs::remove_file(&empty);
         let _ = std::fs::remove_file(&notes);
         Some(if c1 == 0 && c2 == 0 && c3 == 0 && c4 == 0 && c5 == 0 && first == second && kept && direct == imported && !direct.is_empty() {
